@@ -1,6 +1,7 @@
 """C19 - detector composition.  Exact differential run of lean/PyrexVerif/D/Detector.lean against
 pyrex.detector (Detector subclasses created on the fly, CombinedDetector, bare antennas, lists)."""
 import inspect
+import numpy as np
 
 import framework as fw
 
@@ -540,6 +541,15 @@ def correspondence(run):
                 other = gen_tree(run, st, 1, need_det=True)
             else:
                 other = ("C", [gen_tree(run, st, 1) for _ in range(run.rng.randint(1, 2))])
+            if run.rng.random() < 0.25:
+                # an antenna ALREADY INCLUDED (directly, or in a plain list) is moved above the surface before the next `+=`:
+                # the position test covers the whole detector, so the addition must be refused (and rolled back)
+                movable = [x for sub in c.subsets for x in ([sub] if isinstance(sub, ant_class()) else
+                                                            sub if isinstance(sub, list) else [])]
+                if movable:
+                    m = run.rng.choice(movable)
+                    m.position = np.array([m.position[0], m.position[1], run.rng.choice([4.0, 1e-9, 0.3])])
+                    run.count("iadd_after_moving_an_included_antenna_above")
             before = serialize(c)
             try:
                 c += build(other)
@@ -547,6 +557,11 @@ def correspondence(run):
             except ValueError:
                 verdict = "refused"
                 run.count("iadd_refused")
+            if verdict == "ok" and any(a.position[2] > 0 for a in c):
+                run.fail_input("iadd-accepted-above", {"detector_before": before, "added": toks(other)},
+                               observed="`+=` accepted; heights %s" % [float(a.position[2]) for a in c if a.position[2] > 0],
+                               expected="ValueError (the detector holds an antenna above the surface)",
+                               what="an in-place addition was accepted although the detector then holds an antenna above the surface")
             reqs.append("iaddx %s %s" % (before, toks(other)))
             expect.append("%s | %s" % (verdict, " ".join(str(a.aid) for a in c)))
             descs.append(("iaddx", before, toks(other)))
@@ -749,8 +764,29 @@ def search(run, deep):
         if not (outs[0] == outs[1] == outs[2] == outs[3]):
             run.fail_input("assoc", {"a": etoks(a), "b": etoks(b), "c": etoks(c)}, observed=outs,
                            what="+, += and sum disagree on the flattened content")
-        # default trigger = any hit; clear clears all
+        # indexing: det[i] is list(det)[i] for EVERY integer (IndexError exactly where the list raises), slices likewise
         obj = l
+        flat = list(obj)
+        n_ = len(flat)
+        for idx in list(range(-n_ - 4, n_ + 4)) + [np.int64(-1), np.int64(0)]:
+            try:
+                want = ("ok", id(flat[int(idx)]))
+            except IndexError:
+                want = ("IndexError", None)
+            try:
+                got = ("ok", id(obj[idx]))
+            except IndexError:
+                got = ("IndexError", None)
+            if got != want:
+                run.fail_input("getitem", {"a": etoks(a), "b": etoks(b), "c": etoks(c), "index": int(idx), "len": n_},
+                               observed=got[0] if got[0] != "ok" else "antenna #%d" % [id(x) for x in flat].index(got[1]),
+                               expected=want[0] if want[0] != "ok" else "antenna #%d" % [id(x) for x in flat].index(want[1]),
+                               what="detector[%d] differs from list(detector)[%d] (len %d)" % (int(idx), int(idx), n_))
+                break
+        if len(obj) != n_:
+            run.fail_input("getitem", {"a": etoks(a), "b": etoks(b), "c": etoks(c)}, observed=len(obj), expected=n_,
+                           what="len(detector) != number of antennas iterated")
+        # default trigger = any hit; clear clears all
         for mc in (False, True):
             alld = all(getattr(type(d), "triggered").__name__ == "triggered" for d in [obj])
             exp = any((x.is_hit_mc_truth if mc else x.is_hit) for x in obj)
